@@ -211,10 +211,12 @@ def r4_output_construction(ctx):
     r.check(len(nc) == 1, "newcustom/test", "NewCustom is tested", "NewCustom tests: %d" % len(nc))
     dw = [w for w in q.writes_in(c) if sig(w[2]).endswith(".denom")]
     if nc:
-        f1 = force(c, {nc[0][0]: 1})
+        # forced by MEANING ("the declared denomination is NewCustom"), whichever way round the source spells the test
+        is_nc = 1 if q.as_cmp(nc[0][0])[0] == "Eq" else 0
+        f1 = force(c, {nc[0][0]: is_nc})
         live = [sig(w[3]) for w in dw if w[0] in f1.reach]
         r.check(live == ["Denom::Custom{0: Transaction::hash_nosigs(^tx)}"], "newcustom/rewrite", "NewCustom → Custom(tx.hash_nosigs())", "NewCustom becomes %s" % live)
-        f0 = force(c, {nc[0][0]: 0})
+        f0 = force(c, {nc[0][0]: 1 - is_nc})
         live0 = [sig(w[3]) for w in dw if w[0] in f0.reach]
         r.check(live0 == [], "other-denoms-kept", "other denominations are kept", "other denominations become %s" % live0)
     de = [a for a in q.cmp_atoms(c) if "Address::coin_destroy()" in a[1]]
@@ -232,6 +234,14 @@ def r4_output_construction(ctx):
         r.check(sig(e) == "applytx::output_coins_from_tx(elem($2), $1.height)", "callsite", "called with (tx, this.height) for every tx", "called as %s" % sig(e), lr.where(bi))
     ext = [(bi, e) for bi, e in q.call_exprs(lr, "extend")]
     r.check(any("output_coins_from_tx" in sig(e) for bi, e in ext), "accumulated", "outputs are added to the relevant-coin map", "outputs are not accumulated")
+    # ... and for every transaction that has outputs: with "the new coins are not empty" forced, the loop cannot move on without the extend
+    emp = [(bi, e) for bi, e in q.call_exprs(lr, "is_empty") if "output_coins_from_tx" in sig(e)]
+    extb = [bi for bi, e in ext if "output_coins_from_tx" in sig(e)]
+    if emp and extb:
+        f = force(lr, {emp[0][1]: 0})
+        latches_ = [l for h_, bl_, ls_ in lr.loops() for l in ls_ if emp[0][0] in bl_]
+        wo = f.reach_from(emp[0][0], avoid=extb)
+        r.check(not any(l in wo for l in latches_), "accumulated/non-empty", "a transaction's non-empty outputs always reach the map", "a transaction with outputs can pass without its outputs being added to the relevant-coin map (they are then never inserted into the state)", lr.where(emp[0][0]))
 
 
 def r5_effects(ctx):
